@@ -94,20 +94,20 @@ set_option maxHeartbeats 1600000 in
 theorem sqr768_part2 (s : State) (pr pa : Word)
     (hr : Buf s pr 12 true) (ha : Buf s pa 6 false)
     (hstk : Stack s 2) (hrs : OffStack s 2 pr 12) (has : OffStack s 2 pa 6) {a0 a1 a2 a3 a4 a5 l7 h79 h82 h86 h90 h94 h98 l57 l78 l81 l85 l89 l93 l97 : Word} {t10 t17 t29 t46 t51 t56 t60 t61 t64 t65 t67 t68 t69 t70 t71 t72 t73 t74 t75 t76 t77 t80 t83 t84 t87 t88 t91 t92 t95 t96 t99 t100 : ArithRes}
-    (ht66 : t66 = addWithCarry (0 : Word) (0 : Word) false) (ht67 : t67 = addWithCarry l7 l7 false)
-    (ht68 : t68 = addWithCarry t10.val t10.val t67.c) (ht69 : t69 = addWithCarry t17.val t17.val t68.c)
-    (ht70 : t70 = addWithCarry t29.val t29.val t69.c) (ht71 : t71 = addWithCarry t46.val t46.val t70.c)
-    (ht72 : t72 = addWithCarry t51.val t51.val t71.c) (ht73 : t73 = addWithCarry t56.val t56.val t72.c)
-    (ht74 : t74 = addWithCarry t61.val t61.val t73.c) (ht75 : t75 = addWithCarry t64.val t64.val t74.c)
-    (ht76 : t76 = addWithCarry t65.val t65.val t75.c) (ht77 : t77 = addWithCarry (0 : Word) (0 : Word) t76.c)
-    (hl78 : l78 = mulLo a0 a0) (hh79 : h79 = mulHi a0 a0) (ht80 : t80 = addWithCarry t67.val h79 false)
-    (hl81 : l81 = mulLo a1 a1) (hh82 : h82 = mulHi a1 a1) (ht83 : t83 = addWithCarry t68.val l81 t80.c)
-    (ht84 : t84 = addWithCarry t69.val h82 t83.c) (hl85 : l85 = mulLo a2 a2) (hh86 : h86 = mulHi a2 a2)
-    (ht87 : t87 = addWithCarry t70.val l85 t84.c) (ht88 : t88 = addWithCarry t71.val h86 t87.c) (hl89 : l89 = mulLo a3 a3)
-    (hh90 : h90 = mulHi a3 a3) (ht91 : t91 = addWithCarry t72.val l89 t88.c) (ht92 : t92 = addWithCarry t73.val h90 t91.c)
-    (hl93 : l93 = mulLo a4 a4) (hh94 : h94 = mulHi a4 a4) (ht95 : t95 = addWithCarry t74.val l93 t92.c)
-    (ht96 : t96 = addWithCarry t75.val h94 t95.c) (hl97 : l97 = mulLo a5 a5) (hh98 : h98 = mulHi a5 a5)
-    (ht99 : t99 = addWithCarry t76.val l97 t96.c) (ht100 : t100 = addWithCarry t77.val h98 t99.c) :
+    (ht67 : t67 = addWithCarry l7 l7 false) (ht68 : t68 = addWithCarry t10.val t10.val t67.c)
+    (ht69 : t69 = addWithCarry t17.val t17.val t68.c) (ht70 : t70 = addWithCarry t29.val t29.val t69.c)
+    (ht71 : t71 = addWithCarry t46.val t46.val t70.c) (ht72 : t72 = addWithCarry t51.val t51.val t71.c)
+    (ht73 : t73 = addWithCarry t56.val t56.val t72.c) (ht74 : t74 = addWithCarry t61.val t61.val t73.c)
+    (ht75 : t75 = addWithCarry t64.val t64.val t74.c) (ht76 : t76 = addWithCarry t65.val t65.val t75.c)
+    (ht77 : t77 = addWithCarry (0 : Word) (0 : Word) t76.c) (hl78 : l78 = mulLo a0 a0) (hh79 : h79 = mulHi a0 a0)
+    (ht80 : t80 = addWithCarry t67.val h79 false) (hl81 : l81 = mulLo a1 a1) (hh82 : h82 = mulHi a1 a1)
+    (ht83 : t83 = addWithCarry t68.val l81 t80.c) (ht84 : t84 = addWithCarry t69.val h82 t83.c) (hl85 : l85 = mulLo a2 a2)
+    (hh86 : h86 = mulHi a2 a2) (ht87 : t87 = addWithCarry t70.val l85 t84.c) (ht88 : t88 = addWithCarry t71.val h86 t87.c)
+    (hl89 : l89 = mulLo a3 a3) (hh90 : h90 = mulHi a3 a3) (ht91 : t91 = addWithCarry t72.val l89 t88.c)
+    (ht92 : t92 = addWithCarry t73.val h90 t91.c) (hl93 : l93 = mulLo a4 a4) (hh94 : h94 = mulHi a4 a4)
+    (ht95 : t95 = addWithCarry t74.val l93 t92.c) (ht96 : t96 = addWithCarry t75.val h94 t95.c) (hl97 : l97 = mulLo a5 a5)
+    (hh98 : h98 = mulHi a5 a5) (ht99 : t99 = addWithCarry t76.val l97 t96.c)
+    (ht100 : t100 = addWithCarry t77.val h98 t99.c) :
     run embedded_pairing_core_arch_aarch64_bigint_768_square ({ x0 := pr, x1 := t60.val, x2 := a0, x3 := a1, x4 := a2, x5 := a3, x6 := a4, x7 := a5, x8 := s.x8, x9 := l7, x10 := t10.val, x11 := t17.val, x12 := t29.val, x13 := t46.val, x14 := t51.val, x15 := t56.val, x16 := s.x16, x17 := s.x17, x18 := s.x18, x19 := t61.val, x20 := t64.val, x21 := t65.val, x22 := l57, x23 := s.x23, x24 := s.x24, x25 := s.x25, x26 := s.x26, x27 := s.x27, x28 := s.x28, x29 := s.x29, x30 := s.x30, sp := s.sp - 16#64 - 16#64, nf := some t65.n, zf := some t65.z, cf := some t65.c, vf := some t65.v, mem := setMem (setMem (setMem (setMem (s.mem) (s.sp.toNat - 16) s.x19) (s.sp.toNat - 16 + 8) s.x20) (s.sp.toNat - 16 - 16) s.x21) (s.sp.toNat - 16 - 16 + 8) s.x22, readable := s.readable, writable := s.writable, pc := 66, status := .running } : State) 35
       = ({ x0 := pr, x1 := l78, x2 := l97, x3 := h98, x4 := a2, x5 := a3, x6 := a4, x7 := a5, x8 := s.x8, x9 := t80.val, x10 := t83.val, x11 := t84.val, x12 := t87.val, x13 := t88.val, x14 := t91.val, x15 := t92.val, x16 := s.x16, x17 := s.x17, x18 := s.x18, x19 := t95.val, x20 := t96.val, x21 := t99.val, x22 := t100.val, x23 := s.x23, x24 := s.x24, x25 := s.x25, x26 := s.x26, x27 := s.x27, x28 := s.x28, x29 := s.x29, x30 := s.x30, sp := s.sp - 16#64 - 16#64, nf := some t100.n, zf := some t100.z, cf := some t100.c, vf := some t100.v, mem := setMem (setMem (setMem (setMem (s.mem) (s.sp.toNat - 16) s.x19) (s.sp.toNat - 16 + 8) s.x20) (s.sp.toNat - 16 - 16) s.x21) (s.sp.toNat - 16 - 16 + 8) s.x22, readable := s.readable, writable := s.writable, pc := 101, status := .running } : State) := by
   obtain ⟨ra0, ra1, ra2, ra3, ra4, ra5⟩ := ha.r6
@@ -121,7 +121,7 @@ theorem sqr768_part2 (s : State) (pr pa : Word)
   replace hrs := Hide.mk (And.intro room2 hrs); replace has := Hide.mk (And.intro room2 has)
   simp only [OffStack] at hrs has
   clear ha hr hstk
-  a64_sym [← ht66, ← ht67, ← ht68, ← ht69, ← ht70, ← ht71, ← ht72, ← ht73, ← ht74, ← ht75, ← ht76, ← ht77, ← hl78, ← hh79, ← ht80, ← hl81, ← hh82, ← ht83, ← ht84, ← hl85, ← hh86, ← ht87, ← ht88, ← hl89, ← hh90, ← ht91, ← ht92, ← hl93, ← hh94, ← ht95, ← ht96, ← hl97, ← hh98, ← ht99, ← ht100]
+  a64_sym [← ht67, ← ht68, ← ht69, ← ht70, ← ht71, ← ht72, ← ht73, ← ht74, ← ht75, ← ht76, ← ht77, ← hl78, ← hh79, ← ht80, ← hl81, ← hh82, ← ht83, ← ht84, ← hl85, ← hh86, ← ht87, ← ht88, ← hl89, ← hh90, ← ht91, ← ht92, ← hl93, ← hh94, ← ht95, ← ht96, ← hl97, ← hh98, ← ht99, ← ht100]
 
 set_option maxHeartbeats 1600000 in
 theorem sqr768_part3 (s : State) (pr pa : Word)
@@ -226,7 +226,6 @@ theorem bigint_768_square_run (s : State) (pr pa : Word)
   obtain ⟨h63, hh63⟩ : ∃ x, x = mulHi a5 a4 := ⟨_, rfl⟩
   obtain ⟨t64, ht64⟩ : ∃ x, x = addWithCarry l62 t60.val t61.c := ⟨_, rfl⟩
   obtain ⟨t65, ht65⟩ : ∃ x, x = addWithCarry h63 (0 : Word) t64.c := ⟨_, rfl⟩
-  obtain ⟨t66, ht66⟩ : ∃ x, x = addWithCarry (0 : Word) (0 : Word) false := ⟨_, rfl⟩
   obtain ⟨t67, ht67⟩ : ∃ x, x = addWithCarry l7 l7 false := ⟨_, rfl⟩
   obtain ⟨t68, ht68⟩ : ∃ x, x = addWithCarry t10.val t10.val t67.c := ⟨_, rfl⟩
   obtain ⟨t69, ht69⟩ : ∃ x, x = addWithCarry t17.val t17.val t68.c := ⟨_, rfl⟩
@@ -263,7 +262,7 @@ theorem bigint_768_square_run (s : State) (pr pa : Word)
   obtain ⟨t100, ht100⟩ : ∃ x, x = addWithCarry t77.val h98 t99.c := ⟨_, rfl⟩
   have hq0 := sqr768_part0 s pr pa hr ha hstk hrs has hst hpc h0 h1 (t10 := t10) (t13 := t13) (t14 := t14) (t17 := t17) (t20 := t20) (t21 := t21) (t22 := t22) (t25 := t25) (t26 := t26) (a0 := a0) (a1 := a1) (a2 := a2) (a3 := a3) (a4 := a4) (a5 := a5) (h6 := h6) (h9 := h9) (l7 := l7) (l8 := l8) (h12 := h12) (h16 := h16) (h19 := h19) (h24 := h24) (l11 := l11) (l15 := l15) (l18 := l18) (l23 := l23) ha0 ha1 ha2 ha3 ha4 ha5 ht5 hh6 hl7 hl8 hh9 ht10 hl11 hh12 ht13 ht14 hl15 hh16 ht17 hl18 hh19 ht20 ht21 ht22 hl23 hh24 ht25 ht26
   have hq1 := sqr768_part1 s pr pa hr ha hstk hrs has (t10 := t10) (t17 := t17) (t21 := t21) (t22 := t22) (t25 := t25) (t26 := t26) (t29 := t29) (t32 := t32) (t33 := t33) (t34 := t34) (t37 := t37) (t38 := t38) (t39 := t39) (t42 := t42) (t43 := t43) (t46 := t46) (t49 := t49) (t50 := t50) (t51 := t51) (t54 := t54) (t55 := t55) (t56 := t56) (t59 := t59) (t60 := t60) (t61 := t61) (t64 := t64) (t65 := t65) (a0 := a0) (a1 := a1) (a2 := a2) (a3 := a3) (a4 := a4) (a5 := a5) (l7 := l7) (h28 := h28) (h31 := h31) (h36 := h36) (h41 := h41) (h45 := h45) (h48 := h48) (h53 := h53) (h58 := h58) (h63 := h63) (l18 := l18) (l27 := l27) (l30 := l30) (l35 := l35) (l40 := l40) (l44 := l44) (l47 := l47) (l52 := l52) (l57 := l57) (l62 := l62) hl27 hh28 ht29 hl30 hh31 ht32 ht33 ht34 hl35 hh36 ht37 ht38 ht39 hl40 hh41 ht42 ht43 hl44 hh45 ht46 hl47 hh48 ht49 ht50 ht51 hl52 hh53 ht54 ht55 ht56 hl57 hh58 ht59 ht60 ht61 hl62 hh63 ht64 ht65
-  have hq2 := sqr768_part2 s pr pa hr ha hstk hrs has (t10 := t10) (t17 := t17) (t29 := t29) (t46 := t46) (t51 := t51) (t56 := t56) (t60 := t60) (t61 := t61) (t64 := t64) (t65 := t65) (t67 := t67) (t68 := t68) (t69 := t69) (t70 := t70) (t71 := t71) (t72 := t72) (t73 := t73) (t74 := t74) (t75 := t75) (t76 := t76) (t77 := t77) (t80 := t80) (t83 := t83) (t84 := t84) (t87 := t87) (t88 := t88) (t91 := t91) (t92 := t92) (t95 := t95) (t96 := t96) (t99 := t99) (t100 := t100) (a0 := a0) (a1 := a1) (a2 := a2) (a3 := a3) (a4 := a4) (a5 := a5) (l7 := l7) (h79 := h79) (h82 := h82) (h86 := h86) (h90 := h90) (h94 := h94) (h98 := h98) (l57 := l57) (l78 := l78) (l81 := l81) (l85 := l85) (l89 := l89) (l93 := l93) (l97 := l97) ht66 ht67 ht68 ht69 ht70 ht71 ht72 ht73 ht74 ht75 ht76 ht77 hl78 hh79 ht80 hl81 hh82 ht83 ht84 hl85 hh86 ht87 ht88 hl89 hh90 ht91 ht92 hl93 hh94 ht95 ht96 hl97 hh98 ht99 ht100
+  have hq2 := sqr768_part2 s pr pa hr ha hstk hrs has (t10 := t10) (t17 := t17) (t29 := t29) (t46 := t46) (t51 := t51) (t56 := t56) (t60 := t60) (t61 := t61) (t64 := t64) (t65 := t65) (t67 := t67) (t68 := t68) (t69 := t69) (t70 := t70) (t71 := t71) (t72 := t72) (t73 := t73) (t74 := t74) (t75 := t75) (t76 := t76) (t77 := t77) (t80 := t80) (t83 := t83) (t84 := t84) (t87 := t87) (t88 := t88) (t91 := t91) (t92 := t92) (t95 := t95) (t96 := t96) (t99 := t99) (t100 := t100) (a0 := a0) (a1 := a1) (a2 := a2) (a3 := a3) (a4 := a4) (a5 := a5) (l7 := l7) (h79 := h79) (h82 := h82) (h86 := h86) (h90 := h90) (h94 := h94) (h98 := h98) (l57 := l57) (l78 := l78) (l81 := l81) (l85 := l85) (l89 := l89) (l93 := l93) (l97 := l97) ht67 ht68 ht69 ht70 ht71 ht72 ht73 ht74 ht75 ht76 ht77 hl78 hh79 ht80 hl81 hh82 ht83 ht84 hl85 hh86 ht87 ht88 hl89 hh90 ht91 ht92 hl93 hh94 ht95 ht96 hl97 hh98 ht99 ht100
   have hq3 := sqr768_part3 s pr pa hr ha hstk hrs has (t80 := t80) (t83 := t83) (t84 := t84) (t87 := t87) (t88 := t88) (t91 := t91) (t92 := t92) (t95 := t95) (t96 := t96) (t99 := t99) (t100 := t100) (a2 := a2) (a3 := a3) (a4 := a4) (a5 := a5) (h98 := h98) (l78 := l78) (l97 := l97) 
   have hall : run embedded_pairing_core_arch_aarch64_bigint_768_square s 110 = _ := show run embedded_pairing_core_arch_aarch64_bigint_768_square s (27 + (39 + (35 + (9)))) = _ from run_chain hq0 (run_chain hq1 (run_chain hq2 (hq3)))
   rw [hall]
